@@ -29,7 +29,7 @@ ASSUMPTIONS = ["P's accept/ambiguous table (DESIGN section 5) is a faithful read
                "addon edits never inject CR/LF into fields and change bodies only through Message.content (documented API)",
                "VLoop keeps asyncio FIFO semantics; SimNet pipes behave like reliable ordered TCP streams"]
 EXPECTED_PROBES = ["upstream_requests_checked", "client_responses_checked", "client_ambiguous_framing",
-                   "origin_ambiguous_framing", "edited", "proxy_error_page", "forwarded_invalid_octet"]
+                   "origin_ambiguous_framing", "edited", "proxy_error_page", "forwarded_invalid_octet", "trailers_forwarded"]
 
 TOK = re.compile(rb"/r(\d+)")
 MODES = [("regular", 6), ("reverse:http://a.test:80", 2), ("transparent", 2)]
@@ -128,6 +128,31 @@ def generate(rng, tier):
     if rng.at("c01-expect").random() < 0.5:
         # the origin honours an expectation that reaches it (100 Continue before the scripted answer)
         origin["continue_on_expect"] = True
+    rt = rng.at("c01-trailer-carry")
+    if rt.random() < 0.08:
+        # state carried between messages of one keep-alive connection: message 0 is chunked with a trailer section and an
+        # addon re-frames it (drops Transfer-Encoding, sets the content -> Content-Length), message 1 is chunked without
+        # trailers; in either direction nothing of message 0 may show up in message 1
+        host = "a.test"
+        steps, methods, replies, policy = [], [], {}, []
+        for k in range(2):
+            tr = f"X-T{k}: t{k}\r\n" if k == 0 or rt.random() < 0.3 else ""
+            tgt = (f"http://{host}" if form == "absolute" else "") + f"/r{k}/carry"
+            data = (f"POST {tgt} HTTP/1.1\r\nHost: {host}\r\nX-F{k}: v{k}\r\nTransfer-Encoding: chunked\r\n\r\n"
+                    f"5\r\n<{k}>ab\r\n0\r\n{tr}\r\n")
+            steps += [{"op": "send", "data": data, "cuts": [], "gaps": []}, {"op": "await", "n": k + 1, "timeout": 15.0}]
+            methods.append("POST")
+            rtr = f"X-RT{k}: rt{k}\r\n" if k == 0 or rt.random() < 0.3 else ""
+            replies[str(k)] = {"data": f"HTTP/1.1 200 OK\r\nX-R{k}: w{k}\r\nTransfer-Encoding: chunked\r\n\r\n4\r\n<{k}>r\r\n0\r\n{rtr}\r\n",
+                               "cuts": [], "gaps": [0.0], "then": "keep", "method": "POST"}
+        for hook, which in (("request", "request"), ("response", "response")):
+            if rt.random() < 0.7:
+                policy.append({"hook": hook, "nth": 0, "latency": 0, "action": "edit", "which": which,
+                               "edits": [{"k": "del_header", "name": "Transfer-Encoding"},
+                                         {"k": "content", "value": "reframed"}]})
+        steps.append({"op": "fin"})
+        origin = {"kind": "h1", "replies": replies, "idle_close": 3.0, "connect": [{"delay": 0}]}
+        options = {"connection_strategy": options["connection_strategy"], "validate_inbound_headers": True}
     return {"family": "http1-" + mode.split(":")[0], "modes": [mode], "eager": r.random() < 0.5, "options": options,
             "clients": [{"steps": steps, "methods": methods,
                          "original_dst": ["a.test", 80] if mode == "transparent" else None}],
@@ -291,6 +316,17 @@ def oracle(sc, obs):
                                  f"{'; '.join(why[:2])}"})
             else:
                 matched.add(cand)
+                # trailer fields on the wire must be the recorded flow's own (they may be dropped when the message
+                # is not sent chunked, never invented or inherited from another message)
+                if m.trailers:
+                    bump("trailers_forwarded")
+                    rt = flows[cand].request.trailers
+                    want = [(n.lower(), v_) for n, v_ in (rt.fields if rt is not None else ())]
+                    got = [(n.lower(), v_.strip()) for n, v_ in m.trailers]
+                    if got != [(n, v_.strip()) for n, v_ in want]:
+                        v.append({"class": "foreign_trailers", "key": {"where": "upstream"},
+                                  "msg": f"request {m.brief()} went upstream with trailer fields {got[:3]} but its flow "
+                                         f"records {want[:3]}"})
     # ---- 3: framing-ambiguous client messages must not be forwarded ---------------------------
     up_tokens = set()
     for s in obs.servers:
@@ -403,6 +439,15 @@ def oracle(sc, obs):
             if rec["body"] is not None and m.framing == "none" and rec["body"] and \
                     f.request.data.method.upper() != b"HEAD" and m.status not in (204, 304):
                 problems.append("recorded body not sent")
+            if m.trailers and not problems:
+                bump("trailers_forwarded")
+                rt = f.response.trailers
+                want = [(n.lower(), v_.strip()) for n, v_ in (rt.fields if rt is not None else ())]
+                got = [(n.lower(), v_.strip()) for n, v_ in m.trailers]
+                if got != want:
+                    v.append({"class": "foreign_trailers", "key": {"where": "client"},
+                              "msg": f"flow #{i}: response reached the client with trailer fields {got[:3]} but the flow "
+                                     f"records {want[:3]}"})
             if problems:
                 v.append({"class": "client_response_mismatch", "key": {"what": problems[0].split(" wire=")[0].split(":")[0]},
                           "msg": f"flow #{i}: response read by the client differs from the recorded one: {'; '.join(problems[:3])}"})
